@@ -203,10 +203,10 @@ theorem finishUnstakingStep_ok_of {L : Ledger} {a : Addr} {val : Validator} (hi 
   obtain ⟨L1, hL1⟩ := hadd
   rw [hL1]
   dsimp only
-  obtain ⟨acc, rfl, e1⟩ := accountAdd_ok hL1
-  have ht1 : Tallies { L with accounts := acc } := ⟨ht.staked, ht.delegated, ht.committee, ht.committeeDelegated⟩
-  have hp1 : Pools { L with accounts := acc } := ⟨hp.committee, hp.delegated⟩
-  have hg1 : valGet? { L with accounts := acc } a = some val := hg
+  obtain ⟨acc, vs, rfl, e1⟩ := accountAdd_ok hL1
+  have ht1 : Tallies { L with accounts := acc, vesting := vs } := ⟨ht.staked, ht.delegated, ht.committee, ht.committeeDelegated⟩
+  have hp1 : Pools { L with accounts := acc, vesting := vs } := ⟨hp.committee, hp.delegated⟩
+  have hg1 : valGet? { L with accounts := acc, vesting := vs } a = some val := hg
   obtain ⟨L', hd⟩ := deleteValidator_ok_of ht1 hp1 hg1
   obtain ⟨t', p', v', env⟩ := deleteValidator_tallies ht1 hp1 hg1 hd
   refine ⟨L', hd, ?_, t', ?_, p', v', env.unstaking, ⟨env.height, env.params, env.cfg, env.committeesData⟩⟩
